@@ -5,7 +5,7 @@ From Coq Require Import List Arith NArith ZArith Bool Lia.
 Import ListNotations.
 Require Import PV.Pos.Model PV.Pos.Spec PV.Pos.BasicProofs.
 Require Import PV.Front.Shape PV.Front.ShapeFacts PV.Front.Consume PV.Front.UnescapeProofs PV.Front.PrattFacts.
-Require PV.Pratt.Syntax PV.Pratt.Model.
+Require PV.Pratt.Syntax PV.Pratt.Model PV.Pratt.Proofs.
 Open Scope list_scope.
 
 Ltac inv_matches :=
@@ -30,9 +30,12 @@ Ltac inv_word_auto := match goal with H : word _ = _ |- _ => inv_word H end.
 Section P.
 Variable fl : flags.
 Variable text : str.
-Hypothesis Hesc : fix_escape fl = true.
-Hypothesis Hpeek : fix_peek fl = true.
-Hypothesis Hcho : fix_choice fl = true.
+(* strict = true: the three reader repairs are present and a panic is excluded;
+   strict = false: nothing is assumed about the flags and a panic is an allowed outcome (only locatedness is claimed) *)
+Variable strict : bool.
+Hypothesis Hesc : strict = true -> fix_escape fl = true.
+Hypothesis Hpeek : strict = true -> fix_peek fl = true.
+Hypothesis Hcho : strict = true -> fix_choice fl = true.
 
 Definition loc_ok (l : loc) : Prop := match l with LPos p => boundary text p | LSpan a b => span_ok text a b end.
 Definition errs_ok (l : list err) : Prop := Forall (fun e => loc_ok (snd e)) l.
@@ -50,7 +53,7 @@ Definition good (lo hi : nat) (o : out pnode) : Prop :=
   match o with
   | ODone n => node_ok n /\ lo <= nstart n /\ nend n <= hi
   | OErrs l => errs_ok l
-  | OPanic => False
+  | OPanic => strict = false
   | OFuel => True
   end.
 
@@ -164,19 +167,19 @@ Qed.
 
 (* ---- literals *)
 Definition out_ok {A} (P : A -> Prop) (o : out A) : Prop :=
-  match o with ODone a => P a | OErrs l => errs_ok l | OPanic => False | OFuel => True end.
+  match o with ODone a => P a | OErrs l => errs_ok l | OPanic => strict = false | OFuel => True end.
 
 Lemma unescaped_ok k : tok_okb text k = true ->
   out_ok (fun s => exists w, as_str text k = Some w /\ unescape w = UOk s) (unescaped fl text k).
 Proof.
   intros H. unfold unescaped. destruct (tok_as_str _ H) as (w & E & _). rewrite E.
   destruct (unescape w) eqn:U; cbn; eauto.
-  rewrite Hesc. apply err_tok_ok. exact H.
+  destruct (fix_escape fl) eqn:FE; [apply err_tok_ok; exact H|]. cbn. destruct strict; [pose proof (Hesc eq_refl); congruence|reflexivity].
 Qed.
 Lemma peek_index_ok k : tok_okb text k = true -> out_ok (fun _ => True) (peek_index fl text k).
 Proof.
   intros H. unfold peek_index. destruct (tok_as_str _ H) as (w & E & _). rewrite E.
-  destruct (parse_i32 w); cbn; auto. rewrite Hpeek. apply err_tok_ok. exact H.
+  destruct (parse_i32 w); cbn; auto. destruct (fix_peek fl) eqn:FE; [apply err_tok_ok; exact H|]. cbn. destruct strict; [pose proof (Hpeek eq_refl); congruence|reflexivity].
 Qed.
 
 Lemma lex_string w : lex_okb r_string w = true -> exists rest, w = ch_dquote :: rest /\ rest <> [] /\ last rest 0%N = ch_dquote.
@@ -285,7 +288,7 @@ Proof.
       | |- context [obind (obind (peek_index fl text ?t) _) _] =>
           let P := fresh "P" in
           assert (P : out_ok (fun _ => True) (peek_index fl text t)) by (apply peek_index_ok; assumption);
-          destruct (peek_index fl text t); cbn [obind out_ok good] in P |- *; [|exact P|contradiction|exact I]
+          destruct (peek_index fl text t); cbn [obind out_ok good] in P |- *; [|exact P|exact P|exact I]
       end ].
 Qed.
 
@@ -637,9 +640,39 @@ Proof.
     cbn. intros a Ha. auto.
 Qed.
 
+Lemma alternating_star : forall l, alternating l -> forall t rest, l = t :: rest ->
+  matches (RStar (RCat re_infix (sy r_term))) (word rest).
+Proof.
+  induction 1 as [t0 Ht|t0 o l Ht Ho A IH]; intros t rest E; inversion E; subst.
+  - constructor.
+  - destruct (alternating_head _ A) as (t' & r' & -> & Ht').
+    change (word (o :: t' :: r')) with ([trule o; trule t'] ++ word r'). constructor; [|eapply IH; reflexivity].
+    change [trule o; trule t'] with ([trule o] ++ [trule t']). constructor.
+    + unfold re_infix, sy. cbn [alt]. destruct Ho as [-> | ->]; [apply m_alt_l|apply m_alt_r]; constructor.
+    + rewrite Ht'. constructor.
+Qed.
+Lemma alternating_matches l : alternating l -> matches (rule_re r_expression) (word l).
+Proof.
+  intros A. destruct (alternating_head _ A) as (t & r & -> & Ht). cbn [rule_re cat].
+  change (word (t :: r)) with ([] ++ ([trule t] ++ word r)). constructor; [apply m_alt_r; constructor|].
+  constructor; [rewrite Ht; constructor|]. eapply alternating_star; eauto.
+Qed.
+
+(* without the repair a leading `|` reaches the Pratt parser, which panics on an infix operator in operand position *)
+Lemma expr_leading_op f c (rest : list (Syntax.tok tok)) rbp : infix_rule (trule c) ->
+  Model.expr pratt_maps pratt_table (S f) ((mrule_code (trule c), c) :: rest) rbp = Syntax.Panic Syntax.PNud.
+Proof.
+  intros I. rewrite PV.Pratt.Proofs.expr_S. cbn [Model.nud fst]. rewrite pratt_table_spec. destruct I as [-> | ->]; reflexivity.
+Qed.
+Lemma pratt_leading_op c rest : infix_rule (trule c) ->
+  Model.pratt_parse pratt_maps pratt_table (ptoks (c :: rest)) = Syntax.Panic Syntax.PNud.
+Proof.
+  intros I. unfold Model.pratt_parse. cbn [ptoks map]. rewrite Nat.add_comm. cbn [Nat.add]. apply expr_leading_op. exact I.
+Qed.
+
 Lemma cexpr_body_good rec : rec_good rec -> rec_good (cexpr_body fl text rec).
 Proof.
-  intros RG kids lo hi K M. unfold cexpr_body. rewrite Hcho.
+  intros RG kids lo hi K M. unfold cexpr_body.
   destruct (expression_shape _ M) as (lead & body & -> & L & A).
   destruct (alternating_head _ A) as (t & r & Eb & Ht).
   assert (S : exists lo', lo <= lo' /\ kids_ok text lo' hi body /\ skip_choice (lead ++ body) = body).
@@ -647,8 +680,14 @@ Proof.
     - exists lo. repeat split; auto. subst body. cbn. rewrite is_rule_false; [reflexivity|]. rewrite Ht. discriminate.
     - destruct K as (K1 & K2 & K3). pose proof (tok_span _ K2) as Sc. pose proof (span_ok_le _ _ Sc).
       exists (tend c). repeat split; auto; [lia|]. cbn. rewrite (proj2 (is_rule_true _ _) Hc). reflexivity. }
-  destruct S as (lo' & L1 & K' & ->).
-  eapply good_weaken; [exact L1|apply le_n|]. apply body_good; auto.
+  destruct S as (lo' & L1 & K' & SK).
+  case_eq (fix_choice fl); intros FC.
+  - rewrite SK. eapply good_weaken; [exact L1|apply le_n|]. apply body_good; auto.
+  - (* as shipped: no skipping here *)
+    assert (NS : strict = false) by (destruct strict; [pose proof (Hcho eq_refl); congruence|reflexivity]).
+    destruct L as [->|(c & -> & Hc)]; cbn [app] in *.
+    + apply body_good; auto.
+    + rewrite pratt_leading_op by (right; exact Hc). exact NS.
 Qed.
 
 Theorem cexpr_good : forall d, rec_good (cexpr fl text d).
@@ -694,11 +733,20 @@ Proof.
                        (fun ks => obind (cexpr fl text d ks) (fun node => ODone {| pname := name; pspan := tspan nm; pty := ty; pbody := node |}))
                  | _ => OPanic
                  end))).
-    { intros ty rest lo -> KK. cbn [obind]. rewrite Hcho. cbn [obind]. cbn [kids_ok] in KK. destruct KK as (_ & _ & _ & Kx & _).
+    { intros ty rest lo -> KK. cbn [obind]. cbn [kids_ok] in KK. destruct KK as (_ & _ & _ & Kx & _).
       destruct (tok_kids _ Kx) as [Mx KKx]. rewrite Hx in Mx.
-      pose proof (cexpr_good d _ _ _ KKx Mx) as G.
-      destruct (cexpr fl text d (tkids x)) as [n| | |]; cbn [obind out_ok good] in *; auto.
-      split; [cbn; apply tok_span; exact Knm|cbn; tauto]. }
+      assert (FIN : forall ks lo', kids_ok text lo' (tend x) ks -> matches (rule_re r_expression) (word ks) ->
+                out_ok rule_ok (obind (cexpr fl text d ks) (fun node => ODone {| pname := name; pspan := tspan nm; pty := ty; pbody := node |}))).
+      { intros ks lo' Kk Mk. pose proof (cexpr_good d _ _ _ Kk Mk) as G.
+        destruct (cexpr fl text d ks) as [n| | |]; cbn [obind out_ok good] in *; auto.
+        split; [cbn; apply tok_span; exact Knm|cbn; tauto]. }
+      case_eq (fix_choice fl); intros FC; cbn [obind]; [eapply FIN; eauto|].
+      destruct (expression_shape _ Mx) as (lead & body & E & L & A).
+      destruct (alternating_head _ A) as (t0 & r0 & Eb & Ht0).
+      destruct L as [->|(c & -> & Hc)]; cbn [app] in E; rewrite E in *; subst body.
+      - rewrite Eb. rewrite is_rule_false by (rewrite Ht0; discriminate). cbn [obind]. rewrite <- Eb. eapply FIN; eauto.
+      - rewrite (proj2 (is_rule_true _ _) Hc). cbn [obind]. cbn [kids_ok] in KKx. destruct KKx as (_ & _ & KKb).
+        eapply FIN; [exact KKb|]. apply alternating_matches. exact A. }
     destruct Hm as [->|(k & -> & Hk)]; cbn [app] in *.
     + rewrite (proj2 (is_rule_true _ _) Hob). cbn [negb]. eapply BODY; [reflexivity|exact K].
     + rewrite is_rule_false by (destruct Hk as [E|[E|[E|E]]]; rewrite E; discriminate). cbn [negb].
